@@ -62,11 +62,21 @@ func TestPropDispatch(t *testing.T) {
 		wantCH := map[int]int64{}
 		var wantBlack, wantUnroutable int64
 		ntCase := false
+		oddLayout := 0
 		c0 := h.ReadTableCounters()
 		d0 := b.DestCounts()
 		for i := 0; i < nl; i++ {
 			name := nameForModel(t, m)
-			line := fmt.Sprintf("%s %s %s", name, gen.ValueToken(t, "val"), gen.TsToken(t, "ts"))
+			// the line as it may arrive: any whitespace layout the validator accepts (the name is what is left after splitting)
+			sep := func(label string) string {
+				return rapid.SampledFrom([]string{" ", " ", " ", " ", "\t", "  ", " \t", "\v"}).Draw(t, label)
+			}
+			lead := rapid.SampledFrom([]string{"", "", "", "", " ", "\t"}).Draw(t, "lead")
+			trail := rapid.SampledFrom([]string{"", "", "", " ", "\t "}).Draw(t, "trail")
+			line := lead + name + sep("s1") + gen.ValueToken(t, "val") + sep("s2") + gen.TsToken(t, "ts") + trail
+			if strings.TrimSpace(line) != line || strings.ContainsAny(line, "\t\v") || strings.Contains(line, "  ") {
+				oddLayout++
+			}
 			o := m.Dispatch(name)
 			if !o.Blacklisted && o.NewName == "" {
 				// the rewriters reduce this name to nothing: not a metric any more, outside the property's domain
@@ -186,7 +196,7 @@ func TestPropDispatch(t *testing.T) {
 		for _, l := range lines {
 			ls = append(ls, l.line)
 		}
-		rec.Case(m.String()+" | "+strings.Join(ls, ","), ntCase, fmt.Sprintf("routes=%d", len(m.Routes)), "types="+strings.Join(tl, "+"),
+		rec.Case(m.String()+" | "+strings.Join(ls, ","), ntCase, fmt.Sprintf("routes=%d", len(m.Routes)), "types="+strings.Join(tl, "+"), fmt.Sprintf("non-canonical-whitespace>0=%v", oddLayout > 0),
 			fmt.Sprintf("blacklisted>0=%v", wantBlack > 0), fmt.Sprintf("unroutable>0=%v", wantUnroutable > 0))
 	})
 }
